@@ -313,6 +313,17 @@ INSTS = [
                             ((0, 1, 2), (0, 1, 1)))),
 ]
 
+TEN = I.make2(2, 10, (tuple((p,) for p in (3, 1, 2, 4, 5, 6, 7, 8, 9, 10)), ((10,), (3,))),
+              tuple(((1,),) if h not in (3, 10) else (((2,), (1,)) if h == 10 else ((1,), (2,)))
+                    for h in range(1, 11)),
+              tuple((0, 1) for _ in range(10)))
+# a preference list of ten entries (rank 10 exists); few optimal classes
+OPTS_TEN = [
+    (False, False, (("maxsize", ()), ("mincost", ())), None),
+    (False, True, (("maxsize", ()),), None),
+    (False, True, (("gen", ()),), None),
+]
+
 OPTS = [
     # (pc, stab, crits, time limit)
     (False, False, (), None),
@@ -383,6 +394,9 @@ def work(item, tally):
     if kind == "base":
         name, inst = INSTS[ii]
         opt = OPTS[oi]
+    elif kind == "ten":
+        inst = TEN
+        opt = OPTS_TEN[oi]
     else:
         inst = WIDE[ii]
         opt = OPTS_WIDE[oi]
@@ -404,6 +418,7 @@ def main(tier):
              for oi in range(len(OPTS))]
     items += [("wide", ii, oi, wdepth, wsolves) for ii in range(len(WIDE))
               for oi in range(len(OPTS_WIDE))]
+    items += [("ten", 0, oi, wdepth + 1, wsolves) for oi in range(len(OPTS_TEN))]
     tally = pool.run(work, items, chunksize=1)
     c = tally.c
     coverage = {
